@@ -75,6 +75,48 @@ def parameter_provenance(ctx):
     r.must_fire(any(isinstance(n, ast.Attribute) and n.attr == "GLOBAL_PARAMETERS" for n in ast.walk(src)), "GLOBAL_PARAMETERS read in a plain function")
 
 
+def parameter_forwarding(ctx):
+    """An explicitly passed parameter object is honoured: every operator factory that accepts `parameters` hands it
+    to every factory / constructor it calls that accepts one too, and never drops it."""
+    r = ctx.rule("FX-PARAM-FORWARD", "operator factories forward an explicitly given `parameters` object to every callee that takes one (none silently falls back to the globals)", 15)
+    fac = {}
+    mods = [rel for rel in ctx.repo.py_files("bempp_cl/api/operators")]
+    for rel in mods:
+        m = ctx.repo.mod(rel)
+        for qn, fn in m.functions.items():
+            if "<" in qn:
+                continue
+            names = [a.arg for a in fn.args.args + fn.args.kwonlyargs]
+            if "parameters" in names:
+                fac.setdefault(qn.split(".")[0] if qn.endswith(".__init__") else qn, []).append((rel, qn, fn, names))
+    n = 0
+    for key, lst in sorted(fac.items()):
+        for rel, qn, fn, names in lst:
+            n += 1
+            loads = [x for x in ast.walk(fn) if isinstance(x, ast.Name) and x.id == "parameters" and isinstance(x.ctx, ast.Load)]
+            missing = []
+            for c in ast.walk(fn):
+                if not isinstance(c, ast.Call):
+                    continue
+                f = unparse(c.func).split(".")[-1]
+                if f in fac and f != key:
+                    cal = fac[f][0][3]
+                    k = cal.index("parameters") - (1 if cal and cal[0] == "self" else 0)
+                    passed = any(kw.arg == "parameters" for kw in c.keywords) or len(c.args) > k or any(kw.arg is None for kw in c.keywords)
+                    if not passed:
+                        missing.append("%s (line %d)" % (f, c.lineno))
+            body = [s for s in fn.body if not (isinstance(s, ast.Expr) and isinstance(s.value, ast.Constant))]
+            trivial = len(body) == 1 and isinstance(body[0], (ast.Raise, ast.Pass))
+            ok = trivial or (bool(loads) and not missing)
+            why = ("`parameters` is accepted but never used" if not loads else "") + ("; not forwarded to: %s" % ", ".join(missing) if missing else "")
+            r.check(ok, "%s::%s" % (rel.split("operators/")[-1], qn), rel, qn, fn.lineno, "parameters dropped in %s" % qn,
+                    "%s: %s - an explicitly passed parameter object is ignored and the global defaults are used instead" % (qn, why.strip("; ")))
+    if n < 15:
+        raise AnalysisError("only %d operator factories with a `parameters` argument found" % n)
+    bad = ast.parse("def f(a, parameters=None):\n    return identity(a, a, a)").body[0]
+    r.must_fire(not [x for x in ast.walk(bad) if isinstance(x, ast.Name) and x.id == "parameters" and isinstance(x.ctx, ast.Load)], "factory that never reads its parameters argument")
+
+
 def _param_chains(fn, pname):
     """Attribute chains `pname.a.b` read in fn."""
     out = set()
